@@ -330,3 +330,56 @@ package datalog
 //@ ensures empty: len(*e) == 0 ==> err != nil && res == nil
 //@ ensures single_value: len(*e) == 1 && (*e)[0] is Value && !((*e)[0].(Value).ID is Variable) ==> err == nil && res == (*e)[0].(Value).ID
 //@ ensures single_operator: len(*e) == 1 && !((*e)[0] is Value) ==> err != nil && res == nil
+
+// ---------------------------------------------------------------------------
+// terms, predicates, fact sets (C05 leaves)
+
+//@ iface (t Term) Equal(o Term) (result bool)
+//@ serves C05 C06 C10
+//@ requires termWF(t) && (o is Set ==> setWF(o.(Set)))
+//@ modifies nothing
+//@ ensures result == termEq(t, o)
+
+//@ func (p Predicate) Equal(p2 Predicate) (result bool)
+//@ serves C05 C10 C12
+//@ requires predWF(p) && predWF(p2)
+//@ modifies nothing
+//@ loop 0 invariant forall j int :: 0 <= j && j < #i ==> termEq(p.Terms[j], p2.Terms[j])
+//@ ensures result == predEq(p, p2)
+
+//@ func (p Predicate) Match(p2 Predicate) (result bool)
+//@ serves C05 C10
+//@ requires predWF(p) && predWF(p2)
+//@ modifies nothing
+//@ loop 0 invariant forall j int :: 0 <= j && j < #i ==> p.Terms[j] is Variable || p2.Terms[j] is Variable || termEq(p.Terms[j], p2.Terms[j])
+//@ ensures result == predMatch(p, p2)
+
+//@ func (p Predicate) Clone() (res Predicate)
+//@ serves C05 C08 C10
+//@ modifies nothing
+//@ ensures res.Name == p.Name && len(res.Terms) == len(p.Terms) && fresh(arr(res.Terms)) && (forall i int :: 0 <= i && i < len(p.Terms) ==> res.Terms[i] == p.Terms[i])
+
+//@ func (s *FactSet) Insert(f Fact) (result bool)
+//@ serves C05 C10 C12
+//@ requires s != nil && factsWF(*s) && predWF(f.Predicate)
+//@ modifies *s, spare(*s)
+//@ loop 0 invariant forall j int :: 0 <= j && j < #i ==> !predEq(old((*s)[j].Predicate), f.Predicate)
+//@ ensures present: old(factIn(f.Predicate, *s)) ==> !result && *s == old(*s)
+//@ ensures absent: !old(factIn(f.Predicate, *s)) ==> result && len(*s) == old(len(*s)) + 1 && (*s)[old(len(*s))] == f
+//@ ensures prefix_kept: len(*s) >= old(len(*s)) && (forall j int :: 0 <= j && j < old(len(*s)) ==> (*s)[j] == old((*s)[j]))
+//@ ensures wf: factsWF(*s)
+//@ ensures same_or_fresh_array: (arr(*s) == old(arr(*s)) && off(*s) == old(off(*s)) && cap(*s) == old(cap(*s))) || fresh(arr(*s))
+
+//@ func advanceIndexes(current *int, indexes *[]int, facts *FactSet) (result bool)
+//@ serves C05 C10
+//@ requires current != nil && indexes != nil && facts != nil
+//@ requires len(*facts) >= 1 && 0 <= *current && *current < len(*indexes)
+//@ requires forall j int :: 0 <= j && j < len(*indexes) ==> 0 <= (*indexes)[j] && (*indexes)[j] < len(*facts)
+//@ modifies *current, elems(*indexes)
+//@ loop 0 invariant 0 <= i && i <= old(*current) && *current == i
+//@ loop 0 invariant forall j int :: 0 <= j && j < len(*indexes) ==> 0 <= (*indexes)[j] && (*indexes)[j] < len(*facts)
+//@ loop 0 invariant forall j int :: i < j && j <= old(*current) ==> old((*indexes)[j]) == len(*facts) - 1 && (*indexes)[j] == 0
+//@ loop 0 invariant forall j int :: 0 <= j && j < len(*indexes) && (j <= i || j > old(*current)) ==> (*indexes)[j] == old((*indexes)[j])
+//@ ensures in_range: forall j int :: 0 <= j && j < len(*indexes) ==> 0 <= (*indexes)[j] && (*indexes)[j] < len(*facts)
+//@ ensures advanced: result ==> 0 <= *current && *current <= old(*current) && (*indexes)[*current] == old((*indexes)[now(*current)]) + 1 && (forall j int :: *current < j && j <= old(*current) ==> old((*indexes)[j]) == len(*facts) - 1 && (*indexes)[j] == 0) && (forall j int :: 0 <= j && j < len(*indexes) && (j < *current || j > old(*current)) ==> (*indexes)[j] == old((*indexes)[j]))
+//@ ensures exhausted: !result ==> (forall j int :: 0 <= j && j <= old(*current) ==> old((*indexes)[j]) == len(*facts) - 1)
